@@ -13,15 +13,17 @@ RULE = ("worlds of every party / EVSE / battery class with 1-3 injected schedule
         "history signature incl. (crash period, resume mode)")
 PROBES = ["resume:rerun", "resume:json_str", "resume:json_buf", "resume:json_file", "crash_last_period",
           "crash_timer_pending", "double_crash_same_period", "crash_before_first_event", "crash_after_inner",
-          "pending_plugin_at_crash", "pending_recompute_at_crash", "schedule_history_on", "noisy_battery"]
-FAULT_DIMENSION = "scheduler crash at arbitrary calls x 4 resume modes (only JSON survives in 3 of them); noise tape continues across restarts"
+          "pending_plugin_at_crash", "pending_recompute_at_crash", "schedule_history_on", "noisy_battery",
+          "rampdown_estimator_json_resume", "uninterrupted_crash_after_inner", "mutate_then_crash"]
+FAULT_DIMENSION = "scheduler crash at arbitrary calls (optionally after scribbling over everything it was handed) x 4 resume modes (only JSON survives in 3 of them); noise tape continues across restarts"
 ASSUMPTIONS = ["signals is None or JSON-able (a tariff object is documented as not serialised)",
                "start is a naive datetime (tzinfo is not part of the serial form)",
-               "estimator-free or stateless-estimator parties (estimator state lives in the scheduler, which is not serialised)",
+               "estimator state lives in the scheduler, which is not serialised: with SimpleRampdown only crashes before the algorithm ran are injected",
                "no torn/partial JSON files are modelled"]
 
-PROFILE = world.profile(faults={"crash": 1.8}, resume_modes=["rerun", "json_str", "json_buf", "json_file"],
-                        signals={"none": 2, "dict": 1}, estimator={"none": 3, "stub": 1}, extra_recompute=0.6,
+PROFILE = world.profile(faults={"crash": 1.8, "mutate_crash": 0.3}, resume_modes=["rerun", "json_str", "json_buf", "json_file"],
+                        signals={"none": 2, "dict": 1}, estimator={"none": 3, "stub": 1, "rampdown": 2}, uninterrupted=0.4, extra_recompute=0.6,
+                        custom_events=0.15,
                         party={"scripted": 4, "uncontrolled": 2, "greedy": 3, "rr": 1}, noise=0.35)
 
 
@@ -29,7 +31,15 @@ def gen(rs, tier):
     P = PROFILE
     if tier == "thorough" and rs % 12 == 0:
         P = dict(P, stations=(4, 10), horizon=(20, 80), sessions_cap=24)
-    return world.gen_world(rs, P)
+    sc = world.gen_world(rs, P)
+    if sc["party"].get("estimator") == "rampdown":
+        # SimpleRampdown keeps per-session state in the scheduler (not serialised, by design): only crashes BEFORE the
+        # algorithm ran leave that state equal to the uninterrupted run's
+        for f in sc["faults"]:
+            if f["kind"] == "crash":
+                f["when"] = "before"
+        sc["faults"] = [f for f in sc["faults"] if f["kind"] != "mutate_crash"]
+    return sc
 
 
 def after_load(ctx, old, new, info):
@@ -98,6 +108,9 @@ def check(sc):
     out.probe("crash_after_inner", sum(1 for f in sc["faults"] if f.get("when") == "after"))
     out.probe("schedule_history_on", 1 if sc["sim"]["store_schedule_history"] and tr.resumes else 0)
     out.probe("noisy_battery", 1 if tr.noise_draws and tr.resumes else 0)
+    out.probe("mutate_then_crash", tr.fault_counts.get("mutate_crash", 0))
+    out.probe("rampdown_estimator_json_resume", sum(1 for r in tr.resumes if r["mode"] != "rerun") if sc["party"].get("estimator") == "rampdown" else 0)
+    out.probe("uninterrupted_crash_after_inner", sum(1 for f in sc["faults"] if f.get("when") == "after") if sc["party"].get("uninterrupted") else 0)
     nontriv = False
     by_t = {p["t"]: p for p in tr.periods}
     for r in tr.resumes:
@@ -125,7 +138,7 @@ def check(sc):
         return out
     # reference: the same world without crash faults
     sc2 = copy.deepcopy(sc)
-    sc2["faults"] = [f for f in sc2["faults"] if f["kind"] != "crash"]
+    sc2["faults"] = [f for f in sc2["faults"] if f["kind"] not in ("crash", "mutate_crash")]
     ref = driver.run_world(sc2, observe=0, snapshot=False)
     if ref.exc is not None:
         out.aborted = True
